@@ -283,7 +283,7 @@ func init() {
 			}
 			for _, r := range runs {
 				sc := sched.ScenarioByName(r.sc)
-				x := sched.NewExec(sc, sched.MonitorFactory([]string{"C09b3"}, &mon.Stats{}))
+				x := sched.NewExec(sc, sched.MonitorFactory([]string{"C09b3", "C10"}, &mon.Stats{}))
 				x.NoDigest = true
 				devAt := map[int][]sched.Dev{}
 				for _, d := range r.devs {
@@ -299,7 +299,9 @@ func init() {
 				clusterExecs++
 				clusterSteps += x.Steps
 				for _, v := range x.Viol {
-					if v.Key == "anchor-undersigned" || v.Key == "signer-not-in-round-set" {
+					// (every super-majority in the hashgraph is a count of witnesses: it is "more than 2n/3 of the
+					// validators" only if every witness of a round was created by a member of that round's set)
+					if v.Key == "anchor-undersigned" || v.Key == "signer-not-in-round-set" || v.Key == "witness-not-in-round-set" {
 						viol("cluster:"+v.Key, fmt.Sprintf("%s: %s", r.sc, v.What), v.Replay)
 					}
 				}
@@ -317,7 +319,7 @@ func init() {
 		cov["distinct_nontrivial"] = nontrivial + bfsStates
 		cov["exhaustive"] = true
 		cov["samples"] = samples
-		cov["rule"] = fmt.Sprintf("every n in 1..%d on a real PeerSet grown by WithNewPeer (non-trivial: n not divisible by 3, where floor/ceil formulas differ); BFS over all WithNewPeer/WithRemovedPeer sequences over a 5-key universe to depth %d with state = ordered member list (%d set states, %d transitions) against a list model; CheckBlock/SetAnchorBlock decisions with 0..n valid distinct signatures for n=1..10 (%d decisions); anchor blocks offered and signatures recorded by the nodes of 14 runs with leaves, joins, a re-join and a leaving validator that keeps signing (> 1/3 of the distinct validators of the block's round; signers members of that round's set)", maxN, depth, bfsStates, bfsTrans, decisions)
+		cov["rule"] = fmt.Sprintf("every n in 1..%d on a real PeerSet grown by WithNewPeer (non-trivial: n not divisible by 3, where floor/ceil formulas differ); BFS over all WithNewPeer/WithRemovedPeer sequences over a 5-key universe to depth %d with state = ordered member list (%d set states, %d transitions) against a list model; CheckBlock/SetAnchorBlock decisions with 0..n valid distinct signatures for n=1..10 (%d decisions); anchor blocks offered and signatures recorded by the nodes of 14 runs with leaves, joins, a re-join and a leaving validator that keeps signing (> 1/3 of the distinct validators of the block's round; signers and witness creators members of that round's set)", maxN, depth, bfsStates, bfsTrans, decisions)
 		rep.Assumptions = []string{"peers for the 1..100000 sweep use distinct synthetic 65-byte keys (no EC arithmetic needed: only set size matters)"}
 		return rep.Finish()
 	}
